@@ -12,10 +12,11 @@ RULE = ("MC: on the real extracted layouts TLC checks that every list at capacit
 
 
 def sig(ev, d):
+    kind = (d.get("list") or {}).get("kind")
     if ev["ev"] == "ListRt":
-        return "ListRt %s.%s out=%s dec=%s n_ok=%s count_ok=%s" % (ev.get("number"), ev.get("path"), ev.get("out", "")[:30], ev.get("dec"),
-                                                                 ev.get("dec_n") == ev.get("n"), d.get("count_on_wire") == ev.get("n"))
-    return "ListHostile %s.%s how=%s out=%s" % (ev.get("number"), ev.get("path"), ev.get("how"), ev.get("out", "")[:30])
+        return "ListRt kind=%s out=%s dec=%s n_ok=%s count_ok=%s order_ok=%s" % (kind, ev.get("out", "")[:30], ev.get("dec"),
+                                                                 ev.get("dec_n") == ev.get("n"), d.get("count_on_wire") in (ev.get("n"), -1), ev.get("tags_in") == ev.get("tags_out"))
+    return "ListHostile kind=%s how=%s out=%s" % (kind, ev.get("how"), ev.get("out", "")[:30])
 
 
 def run(chk):
